@@ -1,5 +1,5 @@
 """C17 — PVQ, Laplace and table-driven symbol codes are exact, prefix-free bijections (DESIGN.md §7.C17)."""
-import concurrent.futures, os, re
+import concurrent.futures, os, re, shutil
 import common
 
 LEAN_MODULES = ['OpusProps.C17']
@@ -26,7 +26,7 @@ NOT_COVERED = [
     'the cache_caps table (rate.c:145-242) is regenerated but not recomputed by a theorem',
     'SMALL_FOOTPRINT and CUSTOM_MODES variants of cwrs.c (not compiled in this configuration)',
     'ICDF tables built at run time other than the Laplace _p0 ones and the VAD/LBRR placeholder (e.g. none known)',
-    'that each call site passes the ftb recorded in OpusModel/Icdf.lean is checked by a source scan in the search stage, not by the compiler',
+    'that each call site passes the ftb recorded in OpusModel/Icdf.lean is checked by a source scan (tie icdf-ftb-scan), not by the compiler',
 ]
 ASSUMPTIONS = [
     'cwrsi is called with _i < V(_n,_k) (guaranteed by ec_dec_uint) and K <= 32767 (opus_int16 val)',
@@ -41,6 +41,13 @@ REQUIRED_THEOREMS = [
     'OpusProps.C17.eprob_pairs_ok', 'OpusProps.C17.laplace_decode_encode', 'OpusProps.C17.laplace_encode_decode',
     'OpusProps.C17.laplace_tiles',
 ]
+UNPROVED = [
+    'laplace_domain: LaplaceOk fs decay for ALL 0 < fs <= 32736, 0 < decay <= 11456 (the comment "decay is positive and at most '
+    '11456" in laplace.c) — proved only for the 168 e_prob_model pairs (eprob_pairs_ok); the whole domain is swept by the search',
+    'laplace_p0_roundtrip: ec_laplace_decode_p0 inverts ec_laplace_encode_p0 and its two run-time ICDFs satisfy icdfOk 15 '
+    '(DRED only, not compiled in this configuration; modelled, tied and searched, not proved)',
+    'int_ranges for cwrs.c: opus_int16 val and the float accumulation of yy are modelled exactly (unbounded); K <= 32767 is assumed',
+]
 LEVEL_TEXT = ('full proof: U/V recurrence and symmetry; cwrsi and icwrs (transcribed loop by loop from cwrs.c, both branches and '
               'the n==2/n==1 tails) are mutually inverse bijections between K-pulse vectors and [0,V(N,K)) for ALL N>=2, K>=1; the 1272 '
               'regenerated table words equal U(N,K) and are < 2^32; every (N,K) of the static mode\'s cache has V < 2^32 and a table walk '
@@ -54,16 +61,32 @@ LEVEL_NOTE = ('trusted: Lean kernel; the extractors tools/extract/CeltTables.c, 
 TECHNIQUE = 'Lean 4 theorems (induction + decide on regenerated tables) + table regeneration + differential correspondence + witness search'
 
 
+def _harness(ctx, name, variant, **kw):
+    """ctx.harness with a retry: the shared library cache (.cache/lib, pruned to the 8 newest trees) can lose a
+    directory to a concurrent check of another property between build_lib and the compile."""
+    for attempt in range(3):
+        try:
+            return ctx.harness(name, [name + '.c'], variant=variant, **kw)
+        except RuntimeError as e:
+            if attempt == 2 or 'No such file' not in str(e):
+                raise
+            ctx._libs.pop(variant, None)
+            with common.Lock('lib-' + variant):
+                shutil.rmtree(os.path.join(common.CACHE, 'lib', '%s-%s' % (common.repo_hash(), variant)), ignore_errors=True)
+
+
 def ties(ctx):
-    hc = ctx.harness('c17_cwrs', ['c17_cwrs.c'], variant='san')
-    hl = ctx.harness('c17_laplace', ['c17_laplace.c'], variant='san')
+    hc = _harness(ctx, 'c17_cwrs', 'san')
+    hl = _harness(ctx, 'c17_laplace', 'san')
     level = '0' if ctx.quick else '1'
     n = 8 if ctx.quick else 16
     jobs = [('cwrs-%02d' % i, [hc, 'tie', level, str(i), str(n), str(ctx.seed)]) for i in range(n)]
     jobs.append(('laplace', [hl, 'tie', level, str(ctx.seed)]))
     with concurrent.futures.ThreadPoolExecutor(max_workers=len(jobs)) as ex:
         futs = [ex.submit(common.run_tie, name, cmd, 6000) for name, cmd in jobs]
-        return [f.result() for f in futs]
+        out = [f.result() for f in futs]
+    out.append(_ftb_scan())
+    return out
 
 
 def classify(ctx, tie, mm):
@@ -91,34 +114,72 @@ def _parse(out, res):
 FTB = {'trim_icdf': 7, 'spread_icdf': 5, 'tapset_icdf': 2, 'small_energy_icdf': 2}
 
 
-def _ftb_scan(res):
-    """Every ec_enc_icdf/ec_dec_icdf call site of celt/ and silk/ must pass the ftb recorded in OpusModel/Icdf.lean
-    (8 for every SILK table, FTB[...] for the CELT ones)."""
-    pat = re.compile(r'ec_(?:enc|dec)_icdf\s*\((.*?),\s*(\d+)\s*\)\s*[;)+:]', re.S)
-    n = 0
+def _call_args(src, pos):
+    """Arguments of the call whose '(' is at src[pos], split at top-level commas; None if unbalanced."""
+    depth, args, cur, i = 0, [], [], pos
+    while i < len(src):
+        c = src[i]
+        if c in '([{':
+            depth += 1
+            if depth > 1:
+                cur.append(c)
+        elif c in ')]}':
+            depth -= 1
+            if depth == 0:
+                args.append(''.join(cur).strip())
+                return args
+            cur.append(c)
+        elif c == ',' and depth == 1:
+            args.append(''.join(cur).strip()); cur = []
+        else:
+            cur.append(c)
+        i += 1
+    return None
+
+
+def _ftb_scan():
+    """Tie between the catalogue of OpusModel/Icdf.lean and the call sites: every ec_enc_icdf/ec_dec_icdf call of
+    celt/ and silk/ must pass the ftb the table was verified for (8 for every SILK table, FTB[...] for the CELT ones).
+    Calls are found by name and their argument lists by parenthesis matching (formatting-insensitive).  A call whose
+    ftb is not an integer literal, or a CELT call on a table this scan does not know, is listed, not judged."""
+    res = common.TieResult('icdf-ftb-scan')
+    bad, unknown = [], []
     for d in ('celt', 'silk'):
         root = os.path.join(common.REPO, d)
         for fn in sorted(os.listdir(root)):
             if not fn.endswith('.c') or fn in ('entenc.c', 'entdec.c'):
                 continue
             src = open(os.path.join(root, fn), errors='replace').read()
-            src = re.sub(r'/\*.*?\*/', '', src, flags=re.S)
-            for m in pat.finditer(src):
-                args, ftb = m.group(1), int(m.group(2))
-                n += 1
-                want = 8
+            src = re.sub(r'/\*.*?\*/', lambda m: ' ' * len(m.group(0)), src, flags=re.S)
+            for m in re.finditer(r'\bec_(enc|dec)_icdf\s*\(', src):
+                args = _call_args(src, m.end() - 1)
+                want_n = 4 if m.group(1) == 'enc' else 3
+                site = '%s/%s:%d' % (d, fn, src.count('\n', 0, m.start()) + 1)
+                if args is None or len(args) != want_n:
+                    unknown.append(site + ' (not a call)')
+                    continue
+                res.cases += 1
+                tab, ftb = args[-2], args[-1]
+                if not re.fullmatch(r'\d+', ftb):
+                    unknown.append('%s ftb=%s' % (site, ftb))
+                    continue
+                want = 8 if d == 'silk' else None
                 for k, v in FTB.items():
-                    if re.search(r'\b%s\b' % k, args):
+                    if re.search(r'\b%s\b' % k, tab):
                         want = v
-                if d == 'celt' and want == 8:
-                    want = None
-                if ftb != want:
-                    res['witnesses'].append({
-                        'suite': 'icdf', 'input': '%s/%s: %s' % (d, fn, ' '.join(m.group(0).split())[:160]),
-                        'expected': 'ftb=%s as recorded in OpusModel/Icdf.lean' % want, 'observed': 'ftb=%d' % ftb,
-                        'why': 'call site uses an ICDF table with a different ftb than the one it was verified for'})
-    res['cases'] += n
-    res['samples'].append('%d ec_enc_icdf/ec_dec_icdf call sites scanned for their ftb argument' % n)
+                key = '%s ftb=%s' % (d, ftb)
+                res.dist[key] = res.dist.get(key, 0) + 1
+                if want is None:
+                    unknown.append('%s table=%s' % (site, ' '.join(tab.split())))
+                elif int(ftb) != want:
+                    bad.append('%s: %s passed with ftb=%s, verified for ftb=%d' % (site, ' '.join(tab.split())[:80], ftb, want))
+    res.notes.append('%d ec_enc_icdf/ec_dec_icdf call sites scanned' % res.cases)
+    if unknown:
+        res.notes.append('not judged: ' + '; '.join(unknown[:8]))
+    if bad:
+        res.error = ('call sites use an ICDF table with another ftb than the one OpusModel/Icdf.lean records '
+                     '(icdf_ok no longer applies to them): ' + '; '.join(bad[:6]))
+    return res
 
 
 def search(ctx):
@@ -131,8 +192,8 @@ def search(ctx):
                      'ending at 32768, every fm decodes into the encoder\'s interval, for all e_prob_model pairs, random legal pairs '
                      'and a sweep of the documented (fs,decay) domain'}
     level = '0' if ctx.quick else '1'
-    hs = ctx.harness('c17_search', ['c17_search.c'], variant='plain', opt='-O2')
-    hl = ctx.harness('c17_laplace', ['c17_laplace.c'], variant='plain', opt='-O2')
+    hs = _harness(ctx, 'c17_search', 'plain', opt='-O2')
+    hl = _harness(ctx, 'c17_laplace', 'plain', opt='-O2')
     with concurrent.futures.ThreadPoolExecutor(max_workers=2) as ex:
         f1 = ex.submit(common.sh, [hs, level, str(ctx.seed)], None, 3000)
         f2 = ex.submit(common.sh, [hl, 'search', level, str(ctx.seed)], None, 3000)
@@ -143,5 +204,4 @@ def search(ctx):
                 res['witnesses'].append({'suite': name, 'input': '(whole run)', 'expected': 'search completes',
                                          'observed': 'rc=%d: %s' % (rc, out[-800:]),
                                          'why': 'witness search crashed on the implementation (assert / sanitizer / signal)'})
-    _ftb_scan(res)
     return res
